@@ -7,7 +7,9 @@ import (
 	"crypto/sha256"
 	"encoding/binary"
 	"encoding/hex"
+	"encoding/json"
 	"fmt"
+	"os"
 	"github.com/cosmos/cosmos-sdk/x/bank"
 	"runtime/debug"
 	"strings"
@@ -15,6 +17,8 @@ import (
 
 	abci "github.com/tendermint/tendermint/abci/types"
 	tmbytes "github.com/tendermint/tendermint/libs/bytes"
+	"github.com/tendermint/tendermint/libs/log"
+	dbm "github.com/tendermint/tm-db"
 	tmproto "github.com/tendermint/tendermint/proto/tendermint/types"
 
 	sdk "github.com/cosmos/cosmos-sdk/types"
@@ -74,13 +78,36 @@ type App struct {
 	// mutable per-history hooks used by the registered callbacks
 	cur     *World
 	startAt int64 // height at which the next history starts
+	nextCommit bool // the next history started on this worker runs in commit mode (on a chain of its own)
+	commit  bool  // built by NewAppAt: one history, through BeginBlock / EndBlock / Commit
 }
 
 // NewApp builds a fresh chain (real bank/auth/params keepers, IAVL store) and
 // registers the two module doubles the way a host chain would in its app wiring.
-func NewApp() *App {
+func NewApp() *App { return newAppOn(simapp.Setup(false)) }
+
+// NewAppAt builds a chain whose first block has the given height (what simapp.Setup does,
+// plus InitialHeight), so that a history can go through the application's real
+// BeginBlock / EndBlock / Commit at any start height ("commit mode").
+func NewAppAt(initialHeight int64) *App {
+	app := simapp.NewSimApp(log.NewNopLogger(), dbm.NewMemDB(), nil, true, map[int64]bool{}, simapp.DefaultNodeHome, 0, simapp.MakeEncodingConfig())
+	stateBytes, err := json.MarshalIndent(simapp.NewDefaultGenesisState(), "", " ")
+	must(err)
+	app.InitChain(abci.RequestInitChain{
+		Time:            genesisTime,
+		Validators:      []abci.ValidatorUpdate{},
+		ConsensusParams: simapp.DefaultConsensusParams,
+		AppStateBytes:   stateBytes,
+		InitialHeight:   initialHeight,
+	})
+	a := newAppOn(app)
+	a.commit = true
+	return a
+}
+
+func newAppOn(app *simapp.SimApp) *App {
 	a := &App{}
-	a.app = simapp.Setup(false)
+	a.app = app
 	a.k = a.app.ServiceKeeper
 	a.handler = service.NewHandler(a.k)
 	a.baseCtx = a.app.BaseApp.NewContext(false, tmproto.Header{Height: startHeight, Time: genesisTime})
@@ -185,6 +212,9 @@ type World struct {
 	viaApp            bool // end-of-block through the application's module manager
 	stateCbKillOthers bool // the double also kills its other contexts from inside the state callback
 	hostileHashes     bool // some transactions get structured hashes
+	commit            bool // real BeginBlock / EndBlock / Commit of the application around every block
+	begun             bool
+	appHashes         []string
 
 	tracked    map[string]string // addr hex -> name, accounts whose balance is observed
 	trackedOrd []string
@@ -231,7 +261,11 @@ func (a *App) NewWorld(params types.Params) *World {
 	if a.startAt == 0 {
 		a.startAt = startHeight
 	}
-	w := &World{a: a, ctx: ctx, height: a.startAt, now: genesisTime, params: params,
+	if a.commit {
+		// commit mode: the history works directly on the application's deliver state
+		ctx = a.app.BaseApp.NewContext(false, tmproto.Header{Height: a.startAt, Time: genesisTime})
+	}
+	w := &World{a: a, ctx: ctx, height: a.startAt, now: genesisTime, params: params, commit: a.commit,
 		tracked: map[string]string{}, actors: map[string]sdk.AccAddress{}}
 	a.cur = w
 	a.k.SetParams(w.ctx, params)
@@ -529,7 +563,17 @@ func (w *World) EndBlock(dt time.Duration) (res StepResult) {
 				res.PanicSite = panicSite(string(debug.Stack()))
 			}
 		}()
-		if w.viaApp {
+		if w.commit {
+			// the application's own EndBlock: every module's end blocker in the module manager's order
+			resp := w.a.app.EndBlock(abci.RequestEndBlock{Height: w.height})
+			for _, e := range resp.Events {
+				er := EventRec{Type: e.Type, Attrs: map[string]string{}}
+				for _, at := range e.Attributes {
+					er.Attrs[string(at.Key)] = string(at.Value)
+				}
+				res.Events = append(res.Events, er)
+			}
+		} else if w.viaApp {
 			// through the module's own AppModule.EndBlock (module.go), as the application's module
 			// manager calls it. The other modules' end blockers are deliberately not run: simapp's
 			// crisis module asserts the bank invariants every 5 blocks, and those panic as soon as
@@ -541,12 +585,46 @@ func (w *World) EndBlock(dt time.Duration) (res StepResult) {
 		res.OK = true
 	}()
 	res.WallNs = time.Since(t0).Nanoseconds()
-	res.Events = convEvents(ctx.EventManager().Events())
+	if !w.commit {
+		res.Events = convEvents(ctx.EventManager().Events())
+	}
 	res.Callbacks = w.cbLog
 	w.cbLog = nil
 	w.height++
 	w.now = w.now.Add(dt)
 	return
+}
+
+// BeginFirstBlock (commit mode) runs the application's BeginBlock for the first block of the
+// history; funding and host-installed records were written into the deliver state before.
+func (w *World) BeginFirstBlock() {
+	if !w.commit || w.begun {
+		return
+	}
+	w.begun = true
+	hdr := tmproto.Header{Height: w.height, Time: w.now}
+	w.a.app.BeginBlock(abci.RequestBeginBlock{Header: hdr})
+	w.ctx = w.a.app.BaseApp.NewContext(false, hdr)
+}
+
+// CommitAndBegin (commit mode) does what a node does between two blocks: Commit (the block's
+// writes go into the IAVL trees, the application hash is formed) and BeginBlock of the next
+// block (all modules' begin blockers). Returns the application hash.
+func (w *World) CommitAndBegin() string {
+	w.a.app.Commit()
+	hash := hexs(w.a.app.LastCommitID().Hash)
+	if os.Getenv("CHAINMON_STOREHASH") != "" {
+		for _, n := range []string{"acc", "bank", "staking", "mint", "distribution", "slashing", "gov", "params", "ibc", "upgrade", "evidence", "transfer", "capability", "service"} {
+			if k := w.a.app.GetKey(n); k != nil {
+				fmt.Printf("  STOREHASH h=%d %s %x\n", w.height-1, n, w.a.app.BaseApp.NewUncachedContext(false, tmproto.Header{}).MultiStore().(sdk.CommitMultiStore).GetCommitKVStore(k).LastCommitID().Hash)
+			}
+		}
+	}
+	hdr := tmproto.Header{Height: w.height, Time: w.now}
+	w.a.app.BeginBlock(abci.RequestBeginBlock{Header: hdr})
+	w.ctx = w.a.app.BaseApp.NewContext(false, hdr)
+	w.appHashes = append(w.appHashes, hash)
+	return hash
 }
 
 // ChangeParams is what an accepted parameter-change proposal does (x/params writes the new
